@@ -249,16 +249,22 @@ def histAggRun (lim : Nat) (pick : List Int → Nat) (collect : Bool) (fval : Na
 
 structure TwoSt where
   groupNotExists : Nat
-  groupByNotExists : List (Nat × Nat)
+  groupByNotExists : List ((Nat × Nat) × Nat)
   countBySource : List ((Nat × Nat × Nat) × Nat)
 deriving Repr, Inhabited
 
 def TwoSt.init : TwoSt := ⟨0, [], []⟩
 
-def twoStep (st : TwoSt) (ev : Ev) : TwoSt :=
+/-- time bin under which a document of a group that lacks the field is tallied.  `perBin = false`: the code as
+found (`groupByNotExists[groupBySource]++`, reported in the bin without time, which `Aggregate` skips for time
+series); `perBin = true`: fixes/C06-group-not-exists-per-time-bin.patch (keyed by the document's time bin like every
+other tally).  Which one the source has is re-extracted on every run (`groupNotExistsPerBin`). -/
+def missingBin (perBin : Bool) (bin : Nat) : Nat := if perBin then bin else 0
+
+def twoStep (perBin : Bool) (st : TwoSt) (ev : Ev) : TwoSt :=
   match ev.g, ev.f with
   | none, none => st
-  | some g, none => { st with groupByNotExists := incr g st.groupByNotExists }
+  | some g, none => { st with groupByNotExists := incr (missingBin perBin ev.bin, g) st.groupByNotExists }
   | none, some _ => { st with groupNotExists := st.groupNotExists + 1 }
   | some g, some f => { st with countBySource := incr (ev.bin, g, f) st.countBySource }
 
@@ -275,14 +281,14 @@ def twoParse (fval : Nat → Option Int) (entries : List ((Nat × Nat × Nat) ×
 def twoAggregate (lim : Nat) (pick : List Int → Nat) (collect : Bool) (gval : Nat → String) (fval : Nat → Option Int)
     (st : TwoSt) : Option AS :=
   let bins := st.groupByNotExists.foldl
-    (fun bs gc => upsert ⟨0, gval gc.1⟩ (fun c => { c with notExists := gc.2 }) bs) []
+    (fun bs gc => upsert ⟨gc.1.1, gval gc.1.2⟩ (fun c => { c with notExists := gc.2 }) bs) []
   (twoParse fval st.countBySource).map fun es =>
     ⟨es.foldl (fun bs e => upsert ⟨e.1.1, gval e.1.2.1⟩ (twoIns lim pick collect e.2.1 e.2.2) bs) bins,
       st.groupNotExists⟩
 
-def twoRun (lim : Nat) (pick : List Int → Nat) (collect : Bool) (gval : Nat → String) (fval : Nat → Option Int)
-    (evs : List Ev) : Option AS :=
-  twoAggregate lim pick collect gval fval (evs.foldl twoStep .init)
+def twoRun (perBin : Bool) (lim : Nat) (pick : List Int → Nat) (collect : Bool) (gval : Nat → String)
+    (fval : Nat → Option Int) (evs : List Ev) : Option AS :=
+  twoAggregate lim pick collect gval fval (evs.foldl (twoStep perBin) .init)
 
 /-- `haveNotMinMaxQuantiles`: samples are collected only when some quantile lies strictly inside (0,1) -/
 def haveNotMinMaxQuantiles (qs : List (Nat × Nat)) : Bool := qs.any fun q => decide (0 < q.1 ∧ q.1 < q.2)
@@ -295,14 +301,14 @@ def events (rev : Bool) (interval : Int) (mid : Nat → Nat) (gs fs : Option Str
 
 /-- `evalAgg` + `Aggregate()`: the aggregator chosen for the function, run over the events; `none` = error.
 `hasGroup` = the query has a `GroupBy` (always true for count / unique: checked by `aggQueryFromProto`). -/
-def evalAgg (lim : Nat) (pick : List Int → Nat) (fn : Fn) (qs : List (Nat × Nat)) (hasGroup : Bool)
+def evalAgg (perBin : Bool) (lim : Nat) (pick : List Int → Nat) (fn : Fn) (qs : List (Nat × Nat)) (hasGroup : Bool)
     (gval : Nat → String) (fval : Nat → Option Int) (evs : List Ev) : Option AS :=
   match fn with
   | .count => some (countRun gval evs)
   | .unique => some (uniqRun gval evs)
   | _ =>
     let collect := fn = .quantile && haveNotMinMaxQuantiles qs
-    if hasGroup then twoRun lim pick collect gval fval evs else histAggRun lim pick collect fval evs
+    if hasGroup then twoRun perBin lim pick collect gval fval evs else histAggRun lim pick collect fval evs
 
 /-! ## histogram of `iterateEvalTree` and its merge in `seq.MergeQPRs` -/
 
